@@ -28,6 +28,11 @@ type SExpr struct {
 
 type BVar struct{ Name, Type string }
 
+type GhostVar struct {
+	Name, GType string
+	Init        *SExpr
+}
+
 type Clause struct {
 	Props []string
 	Label string
@@ -53,6 +58,8 @@ type Contract struct {
 	Key       string // e.g. ice.(*Agent).handleRoleConflict or iface key "iface ice.Candidate.Priority"
 	Props     []string
 	Requires  []Clause
+	Defines   []Clause
+	GhostVars []GhostVar
 	Ensures   []Clause
 	Modifies  []string // location expressions (source); nil + !HasMod => syntactic mod set
 	HasMod    bool
@@ -77,6 +84,7 @@ type SpecFunc struct {
 	Params []BVar
 	Ret    string
 	Body   *SExpr // nil => uninterpreted
+	Macro  bool
 	Src    string
 }
 
@@ -312,6 +320,28 @@ func parseSpecs(lines []ContractLine) *Specs {
 		}
 		switch kw {
 		case "spec":
+			// spec macro name(a T, b T) = expr   (expanded in the caller's state; parameters may be Go-typed)
+			if mm := regexp.MustCompile(`^macro\s+([A-Za-z_][A-Za-z0-9_]*)\s*\(([^)]*)\)\s*=\s*(.*)$`).FindStringSubmatch(body); mm != nil {
+				sf := &SpecFunc{Name: mm[1], Src: body, Macro: true}
+				for _, p := range strings.Split(mm[2], ",") {
+					f := strings.Fields(p)
+					if len(f) != 2 {
+						errf(l, "bad macro param %q", p)
+						continue
+					}
+					sf.Params = append(sf.Params, BVar{f[0], f[1]})
+				}
+				e, err := parseSExpr(mm[3])
+				if err != nil {
+					errf(l, "%v", err)
+					continue
+				}
+				sf.Body = e
+				S.Funcs[sf.Name] = sf
+				S.FuncOrder = append(S.FuncOrder, sf.Name)
+				cur = nil
+				continue
+			}
 			// spec func name(a T, b T) R [= expr]
 			m := regexp.MustCompile(`^func\s+([A-Za-z_][A-Za-z0-9_]*)\s*\(([^)]*)\)\s*([A-Za-z]+)\s*(=\s*(.*))?$`).FindStringSubmatch(body)
 			if m == nil {
@@ -478,6 +508,28 @@ func parseSpecs(lines []ContractLine) *Specs {
 				if c, ok := mkClause(l, body); ok {
 					cur.Requires = append(cur.Requires, c)
 				}
+			case "defines":
+				// a ghost definition: assumed at call sites, not checked against the body (listed in evidence)
+				if c, ok := mkClause(l, body); ok {
+					cur.Defines = append(cur.Defines, c)
+				}
+			case "ghostvar":
+				// ghostvar name int|bool [= init]
+				f := strings.Fields(body)
+				if len(f) < 2 {
+					errf(l, "bad ghostvar")
+					continue
+				}
+				gv := GhostVar{Name: f[0], GType: f[1]}
+				if i := strings.Index(body, "="); i >= 0 {
+					e, err := parseSExpr(body[i+1:])
+					if err != nil {
+						errf(l, "%v", err)
+						continue
+					}
+					gv.Init = e
+				}
+				cur.GhostVars = append(cur.GhostVars, gv)
 			case "ensures":
 				if c, ok := mkClause(l, body); ok {
 					cur.Ensures = append(cur.Ensures, c)
